@@ -37,7 +37,14 @@ def env_trace(tid, beh, cfg, rng, episodes=2, fault_prob=0.15):
     """Episode 1 follows the behaviour's dispatch sequence; later episodes are
     random walks; invalid decisions are injected; the decisions of the last
     episode are repeated on a fresh environment at the end."""
-    s = ESession(tid, beh["inst"], cfg)
+    try:
+        s = ESession(tid, beh["inst"], cfg)
+    except esession.EnvConstructionFailed as ex:
+        f = dsession.DSession(tid, [[{"ms": [1], "d": 1}]], [])
+        f.header["env"] = {"use_padding": bool(cfg["use_padding"]), "builder": cfg["builder"], "multi": False,
+                           "nvec": [1, 1], "start": [0, -1], "declared_shapes": {}}
+        f._ev({"a": "EnvCtorFailed", "out": str(ex), "builder": cfg["builder"]})
+        return f.trace()
     inst = beh["inst"]
     nm = max(m for job in inst for op in job for m in op["ms"])
     acts = []
